@@ -78,32 +78,63 @@ def run(ctx: Ctx) -> None:
 
 # ------------------------------------------------------------------ D18.1
 def _nint_ok(ctx: Ctx) -> FuncInfo:
+    """Path by path: where the value is known to be an int it is returned
+    unchanged, where it is known to be a float int(v + 0.5) is returned, no
+    other path returns."""
+    from sa.pathinline import paths
+    from sa.srcmodel import func_body as _fb
     fi = ctx.repo.func(MOD, "__nint")
     p = fi.params[0]
     ok_int = ok_float = False
-    for n in ast.walk(fi.node):
-        if isinstance(n, ast.If) and isinstance(n.test, ast.Call) and \
-                ast.unparse(n.test.func) == "isinstance":
-            ty = ast.unparse(n.test.args[1])
-            ret = n.body[0] if n.body and isinstance(
-                n.body[0], ast.Return) else None
-            if ret is None:
-                continue
-            if ty == "int" and ast.unparse(ret.value) == p:
+    other: list[str] = []
+    try:
+        ps = [q for q in paths(_fb(fi)) if q.ended == "return"]
+    except ValueError:
+        ps = []
+    for q in ps:
+        facts: dict[str, bool] = {}
+        for t, tr in q.guards:
+            while isinstance(t, ast.UnaryOp) and isinstance(t.op, ast.Not):
+                t, tr = t.operand, not tr
+            if isinstance(t, ast.Call) and ast.unparse(
+                    t.func) == "isinstance" and len(
+                    t.args) == 2 and ast.unparse(t.args[0]) == p:
+                facts[ast.unparse(t.args[1])] = tr
+        ev = next((e for e in reversed(q.events) if e.kind == "return"),
+                  None)
+        v = ev.value if ev is not None else None
+        if v is None:
+            other.append("a path returns nothing")
+        elif facts.get("int") is True:
+            if ast.unparse(v) == p:
                 ok_int = True
-            if ty == "float":
-                v = ret.value
-                if isinstance(v, ast.Call) and ast.unparse(
-                        v.func) == "int" and isinstance(
-                        v.args[0], ast.BinOp) and isinstance(
-                        v.args[0].op, ast.Add):
-                    l_, r_ = v.args[0].left, v.args[0].right
-                    ok_float = any(
-                        isinstance(a_, ast.Name) and a_.id == p
-                        and ctx.repo.const(fi.module, b_) == 0.5
-                        for a_, b_ in ((l_, r_), (r_, l_)))
-    ctx.ob("D18.1", fi, fi.node, ok_int and ok_float,
-           "nint(v) = v for integers and int(v + 0.5) otherwise",
+            else:
+                other.append(f"an integer is returned as "
+                             f"`{ast.unparse(v)[:40]}`")
+        elif facts.get("float") is True:
+            okf = False
+            if isinstance(v, ast.Call) and ast.unparse(
+                    v.func) == "int" and len(v.args) == 1 and isinstance(
+                    v.args[0], ast.BinOp) and isinstance(
+                    v.args[0].op, ast.Add):
+                l_, r_ = v.args[0].left, v.args[0].right
+                okf = any(
+                    isinstance(a_, ast.Name) and a_.id == p
+                    and ctx.repo.const(fi.module, b_) == 0.5
+                    for a_, b_ in ((l_, r_), (r_, l_)))
+            if okf:
+                ok_float = True
+            else:
+                other.append(f"a float is rounded by "
+                             f"`{ast.unparse(v)[:40]}`")
+        else:
+            other.append("a value that is neither known to be an int nor "
+                         "a float is returned")
+    ok = ok_int and ok_float and not other
+    ctx.ob("D18.1", fi, fi.node, ok,
+           "nint(v) = v for integers and int(v + 0.5) otherwise" + (
+               "" if ok else ": " + ("; ".join(dict.fromkeys(other))
+                                      or "no such paths found")),
            construct="nint")
     return fi
 
@@ -114,8 +145,9 @@ def _evaluator(ctx: Ctx, fi: FuncInfo, nint: FuncInfo) -> Evaluator:
     def hook(ev: Evaluator, env: Env, n: ast.Call) -> Any:
         if isinstance(n.func, ast.Name):
             r = repo.resolve(fi.module, n.func.id)
-            if r is nint and len(n.args) == 1:
-                return _app("nint", ev.num(env, n.args[0]))
+            if r is nint and len(n.args) + len(n.keywords) == 1:
+                return _app("nint", ev.num(env, (
+                    n.args[0] if n.args else n.keywords[0].value)))
             if n.func.id == "int" and len(n.args) == 1:
                 return _app("int", ev.num(env, n.args[0]))
         fn = n.func.id if isinstance(n.func, ast.Name) else (
